@@ -266,6 +266,22 @@ def run(ck, facts, tier):
                              sample="%s(%s)" % (top, cel.vfmt(want)[:120]))
     from rules import pywrap
     pywrap.run(ck, facts, tier)
+    # "arithmetic on the container gives the same result as on the contained types" covers its sum, its identities and its sign/zero tests as well: the container's
+    # Sum is one fold with its own `+` (so a Dual/Dual2 mix in a sequence is refused where `+` refuses it), zero()/one() are the plain floats, and
+    # signum/is_positive/is_negative/is_zero forward per kind (C19 R19.4/R19.5/R19.6)
+    if not getattr(ck, "_c18_c19_nested", False) and (ck._only is None or ck._only & {"R19.4", "R19.5", "R19.6"}):
+        ck._c18_c19_nested = True
+        prev_surface = getattr(ck, "_surface_done", False)
+        ck._surface_done = True          # c19.run ends by including this module's rules: not again
+        try:
+            from rules import c19
+            nd_, tb_ = list(ck.not_decided), list(ck.trusted)
+            with ck.restrict({"R19.4", "R19.5", "R19.6"}):
+                c19.run(ck, facts, tier)
+            ck.not_decided[:], ck.trusted[:] = nd_, tb_
+        finally:
+            ck._surface_done = prev_surface
+            ck._c18_c19_nested = False
     ck.not_decided += ["nothing dynamic is claimed; refusal is by panic! (divergence), as the statement's 'refused rather than computed'"]
     ck.trusted += ["lib/cel.py structural match evaluation", "lib/oracle.py"]
 
